@@ -378,3 +378,177 @@ func Param(fn *ssa.Function, name string) *ssa.Parameter {
 	}
 	return nil
 }
+
+// FieldOf returns the "<Type>.<field>" key when v is the address of a struct
+// field or a load from one (through any number of loads), else "".
+func FieldOf(v ssa.Value) string {
+	for i := 0; i < 4 && v != nil; i++ {
+		switch x := v.(type) {
+		case *ssa.FieldAddr:
+			return FieldKey(x)
+		case *ssa.Field:
+			return FieldKeyVal(x)
+		case *ssa.UnOp:
+			if x.Op == token.MUL {
+				v = x.X
+				continue
+			}
+			return ""
+		case *ssa.ChangeType:
+			v = x.X
+			continue
+		case *ssa.MakeInterface:
+			v = x.X
+			continue
+		default:
+			return ""
+		}
+	}
+	return ""
+}
+
+// FieldBase returns the struct value whose field v addresses or loads (nil if v is no field access).
+func FieldBase(v ssa.Value) ssa.Value {
+	for i := 0; i < 4 && v != nil; i++ {
+		switch x := v.(type) {
+		case *ssa.FieldAddr:
+			return x.X
+		case *ssa.Field:
+			return x.X
+		case *ssa.UnOp:
+			if x.Op == token.MUL {
+				v = x.X
+				continue
+			}
+			return nil
+		default:
+			return nil
+		}
+	}
+	return nil
+}
+
+// StoresToField lists the stores in fn whose address is the given field key.
+func StoresToField(fn *ssa.Function, key string) []*ssa.Store {
+	var out []*ssa.Store
+	for _, b := range fn.Blocks {
+		for _, in := range b.Instrs {
+			if st, ok := in.(*ssa.Store); ok {
+				if fa, ok := st.Addr.(*ssa.FieldAddr); ok && FieldKey(fa) == key {
+					out = append(out, st)
+				}
+			}
+		}
+	}
+	return out
+}
+
+// LoadsOfField lists the loads (UnOp MUL of FieldAddr, or Field) of the given field key in fn.
+func LoadsOfField(fn *ssa.Function, key string) []ssa.Value {
+	var out []ssa.Value
+	for _, b := range fn.Blocks {
+		for _, in := range b.Instrs {
+			switch x := in.(type) {
+			case *ssa.UnOp:
+				if x.Op == token.MUL {
+					if fa, ok := x.X.(*ssa.FieldAddr); ok && FieldKey(fa) == key {
+						out = append(out, x)
+					}
+				}
+			case *ssa.Field:
+				if FieldKeyVal(x) == key {
+					out = append(out, x)
+				}
+			}
+		}
+	}
+	return out
+}
+
+// EqTest decomposes "a == b" / "a != b" (after stripping negations):
+// eqOnTrue tells whether the TRUE outcome of cond means a == b.
+func EqTest(cond ssa.Value) (a, b ssa.Value, eqOnTrue bool, ok bool) {
+	v, neg := StripNot(cond)
+	bo, isb := v.(*ssa.BinOp)
+	if !isb || (bo.Op != token.EQL && bo.Op != token.NEQ) {
+		return nil, nil, false, false
+	}
+	eqOnTrue = bo.Op == token.EQL
+	if neg {
+		eqOnTrue = !eqOnTrue
+	}
+	return bo.X, bo.Y, eqOnTrue, true
+}
+
+// GuardedByEq: x executes only on the outcome "equal == want" of a comparison
+// whose operands satisfy pa and pb (in either order).
+func GuardedByEq(x ssa.Instruction, want bool, pa, pb func(ssa.Value) bool) bool {
+	for _, g := range GuardsOf(x) {
+		a, b, eqOnTrue, ok := EqTest(g.If.Cond)
+		if !ok {
+			continue
+		}
+		isEq := eqOnTrue == g.CondTrue()
+		if isEq != want {
+			continue
+		}
+		if (pa(a) && pb(b)) || (pa(b) && pb(a)) {
+			return true
+		}
+	}
+	return false
+}
+
+// Returns lists the return instructions of fn.
+func Returns(fn *ssa.Function) []*ssa.Return {
+	var out []*ssa.Return
+	for _, b := range fn.Blocks {
+		if len(b.Instrs) == 0 {
+			continue
+		}
+		if r, ok := b.Instrs[len(b.Instrs)-1].(*ssa.Return); ok {
+			out = append(out, r)
+		}
+	}
+	return out
+}
+
+// HasOrigin reports whether o is among the origins of v.
+func HasOrigin(v ssa.Value, o ssa.Value) bool {
+	if v == o {
+		return true
+	}
+	for _, x := range Origins(v) {
+		if x == o {
+			return true
+		}
+	}
+	return false
+}
+
+// ReturnValues gives the values a return instruction yields. In functions with
+// defer, go/ssa spills results into locals ("*t0 = v; rundefers; t = *t0;
+// return t"): the value returned on that exit is the last store to the result
+// local in the exit block, which is what this returns for such operands.
+func ReturnValues(ret *ssa.Return) []ssa.Value {
+	out := make([]ssa.Value, len(ret.Results))
+	for i, res := range ret.Results {
+		out[i] = res
+		u, ok := res.(*ssa.UnOp)
+		if !ok || u.Op != token.MUL {
+			continue
+		}
+		al, ok := u.X.(*ssa.Alloc)
+		if !ok {
+			continue
+		}
+		blk := ret.Block()
+		for j := len(blk.Instrs) - 1; j >= 0; j-- {
+			if st, ok := blk.Instrs[j].(*ssa.Store); ok && st.Addr == al {
+				out[i] = st.Val
+				break
+			}
+		}
+	}
+	return out
+}
